@@ -451,6 +451,17 @@ def sequence_family():
         "sorted(P())", "(a + p).bit_length()", "(a + p).upper()", "(p + b).decode()", "(p + b).bit_length()",
         "for y1 in a: pass", "for y2 in b: pass", "for y3 in P(): pass"]
   out.append((pre, st))
+  # (g) classes with attribute hooks: implicit special-method lookups go to the type, not through __getattribute__ /
+  # __getattr__ — an operator, subscript or call the class has no slot for is a TypeError whatever the hooks return
+  pre = ("class Hooked:\n  def __init__(self):\n    self.v = 1\n"
+         "  def __getattribute__(self, name):\n    return object.__getattribute__(self, name)\n"
+         "class HookedSub(Hooked):\n  def __add__(self, o):\n    return 's'\n  def __neg__(self):\n    return 2.5\n"
+         "class Dyn:\n  def __init__(self):\n    self.v = 1\n  def __getattr__(self, name):\n    return 7\n")
+  st = ["h = Hooked()", "s2 = HookedSub()", "d = Dyn()",
+        "h + 1", "1 + h", "-h", "h[0]", "h()", "h * 2", "h.v", "h.v.bit_length()",
+        "s2 + 1", "-s2", "1 + s2", "s2 - 1", "s2[0]", "s2()", "(s2 + 1).upper()", "(s2 + 1).bit_length()", "(-s2).hex()",
+        "d + 1", "-d", "d[0]", "d()", "d.v", "d.anything", "d.v.bit_length()"]
+  out.append((pre, st))
   return out
 
 
